@@ -168,7 +168,7 @@ Proof. intros H. simpl. rewrite H. reflexivity. Qed.
 
 Fixpoint last_stmt (s : stmt) : stmt := match s with SSeq _ b => last_stmt b | _ => s end.
 Definition loop_body (s : stmt) : stmt :=
-  match last_stmt s with SForRange _ _ b => b | SForRows _ _ b => b | _ => SSkip end.
+  match last_stmt s with SForRange _ _ b => b | SForRows _ _ b => b | SForEnum _ _ _ b => b | _ => SSkip end.
 
 Ltac ev1 := cbn [exec eval upd String.eqb Ascii.eqb Bool.eqb fnat].
 Ltac look := match goal with H : ?e ?x = Some _ |- context [?e ?x] => rewrite H end.
@@ -596,10 +596,10 @@ Proof.
 Qed.
 
 (** * get_labels: the loop that builds the reduced dendrogram *)
-Definition sim_red (cindex csize : list (nat * nat)) (cur cur_new : nat) (out : dendrogram) (e : env) : Prop :=
+Definition sim_red (lv : option val) (cindex csize : list (nat * nat)) (cur cur_new : nat) (out : dendrogram) (e : env) : Prop :=
   e "cluster_index" = Some (embN cindex) /\ e "cluster_size" = Some (embN csize) /\
   e "current_cluster" = Some (vnat cur) /\ e "current_cluster_new" = Some (vnat cur_new) /\
-  e "dendrogram_new" = Some (VList (map embNewRow out)).
+  e "dendrogram_new" = Some (VList (map embNewRow out)) /\ e "labels" = lv.
 
 Lemma dset_vnat_fresh k v (st : list (nat * nat)) :
   alookup k st = None -> dset (Z.of_nat k) (VInt (Z.of_nat v)) (embA vnat st) = embA vnat (st ++ [(k, v)]).
@@ -619,16 +619,16 @@ Ltac evr := repeat (progress ev3 || look || (progress (unfold vnat))
                    || rewrite qtrunc_inject_Z || rewrite dget_emb || rewrite dremove_emb
                    || rewrite add_nat' || rewrite cmp_ne_nat').
 
-Lemma reduce_loop_link : forall rows cindex csize cur cur_new out e,
-  sim_red cindex csize cur cur_new out e -> keys_lt cur cindex -> keys_lt cur_new csize ->
+Lemma reduce_loop_link lv : forall rows cindex csize cur cur_new out e,
+  sim_red lv cindex csize cur cur_new out e -> keys_lt cur cindex -> keys_lt cur_new csize ->
   match reduce_loop rows cindex csize cur cur_new with
   | Ok res => exists e', for_rows red_f (map embRow rows) e = POk e' /\
-                         e' "dendrogram_new" = Some (VList (map embNewRow (out ++ res)))
+                         e' "dendrogram_new" = Some (VList (map embNewRow (out ++ res))) /\ e' "labels" = lv
   | Err er => for_rows red_f (map embRow rows) e = PErr (conv er)
   end.
 Proof.
-  induction rows as [|r rest IH]; intros cindex csize cur cur_new out e (Hci & Hcs & Hcur & Hnew & Hout) Kci Kcs.
-  - simpl. exists e. split; [reflexivity|]. rewrite app_nil_r. exact Hout.
+  induction rows as [|r rest IH]; intros cindex csize cur cur_new out e (Hci & Hcs & Hcur & Hnew & Hout & Hlab) Kci Kcs.
+  - simpl. exists e. split; [reflexivity|]. rewrite app_nil_r. split; [exact Hout | exact Hlab].
   - cbn [reduce_loop map for_rows].
     remember (red_f (embRow r) e) as F eqn:HF. revert HF.
     unfold red_f at 1. unfold embRow at 1. cbn [bind_all].
@@ -661,7 +661,7 @@ Proof.
       * apply keys_lt_app; [do 2 apply keys_lt_aremove; exact Kci | lia].
       * apply keys_lt_app; [do 2 apply keys_lt_aremove; exact Kcs | lia].
       * destruct (reduce_loop rest _ _ (S cur) (S cur_new)) as [out0|er].
-        -- destruct IH as [e' [F1 F2]]. exists e'. split; [exact F1|].
+        -- destruct IH as [e' [F1 [F2 F3]]]. exists e'. split; [exact F1|]. split; [|exact F3].
            rewrite F2. rewrite <- app_assoc. reflexivity.
         -- exact IH.
 Qed.
@@ -672,7 +672,8 @@ Theorem src_reduce_loop_is_model D cindex csize cur cur_new (e0 : env) :
   e0 "current_cluster_new" = Some (vnat cur_new) -> e0 "dendrogram_new" = Some (VList []) ->
   keys_lt cur cindex -> keys_lt cur_new csize ->
   match reduce_loop D cindex csize cur cur_new with
-  | Ok res => exists e', exec src_reduce_loop e0 = POk e' /\ e' "dendrogram_new" = Some (VList (map embNewRow res))
+  | Ok res => exists e', exec src_reduce_loop e0 = POk e' /\ e' "dendrogram_new" = Some (VList (map embNewRow res)) /\
+                         e' "labels" = e0 "labels"
   | Err er => exec src_reduce_loop e0 = PErr (conv er)
   end.
 Proof.
@@ -680,5 +681,6 @@ Proof.
   assert (E : exec src_reduce_loop e0 = for_rows red_f (map embRow D) e0).
   { unfold src_reduce_loop. cbn [exec eval]. rewrite Hd. reflexivity. }
   rewrite E.
-  exact (reduce_loop_link D cindex csize cur cur_new [] e0 (conj Hci (conj Hcs (conj Hcur (conj Hnew Hout)))) Kci Kcs).
+  exact (reduce_loop_link (e0 "labels") D cindex csize cur cur_new [] e0
+           (conj Hci (conj Hcs (conj Hcur (conj Hnew (conj Hout eq_refl))))) Kci Kcs).
 Qed.
